@@ -1,6 +1,7 @@
 package vc
 
 import (
+	"go/token"
 	"go/types"
 	"strings"
 
@@ -205,8 +206,20 @@ func (c *effCtx) ofContractNamed(fc *FuncContract, what string, names []string, 
 			e.Why = "modifies since(...) of " + what
 			return e
 		}
+		// logical variables of the contract are typed too
+		lnames, ltypes := append([]string{}, names...), append([]types.Type{}, ptypes...)
+		for _, lv := range fc.Logicals {
+			for path, tp := range c.P.TPkgs {
+				if shortPkg(path) == fc.Pkg {
+					if tv, err := types.Eval(c.P.Fset, tp.Types, token.NoPos, lv.Type); err == nil && tv.IsType() {
+						lnames = append(lnames, lv.Name)
+						ltypes = append(ltypes, tv.Type)
+					}
+				}
+			}
+		}
 		for _, m := range mc.Exprs {
-			t := staticType(m, names, ptypes)
+			t := staticType(m, lnames, ltypes)
 			resolved := false
 			if t != nil {
 				switch u := t.Underlying().(type) {
@@ -385,6 +398,9 @@ func (c *effCtx) ofCall(fn *ssa.Function, ci ssa.CallInstruction) *Effects {
 	if fc := c.P.Contracts.Funcs[FuncKey(fn)]; fc != nil {
 		if key, ok := fc.CallsAs[describeValue(fn, com.Value)]; ok {
 			if sc := c.P.Contracts.Funcs[key]; sc != nil {
+				if target := c.P.Funcs[key]; target != nil && sc.Kind == "func" {
+					return c.ofFunc(target)
+				}
 				return c.ofContract(sc, key, sigTypes(com.Signature(), nil)...)
 			}
 		}
